@@ -586,6 +586,54 @@ func c04Concurrent(R *vr.Result, rng *rand.Rand, agent *agentProc, users map[str
 				mu.Unlock()
 			}(j)
 		}
+		// two requests in flight whose user name and password, written one after the other, give the same bytes:
+		// (alice, secret) is right, (a, licesecret) and (alic, esecret) are wrong - on every frontend, arriving together
+		{
+			for k := 0; k < 4; k++ {
+				fe := []string{"sasl", "basic", "api", "ldap"}[(k+r)%4]
+				cu := names[(k+r)%len(names)]
+				for try := 0; len(cu) < 3 && try < len(names); try++ {
+					cu = names[(k+r+try)%len(names)]
+				}
+				if len(cu) < 3 || len(users[cu]) > 200 || strings.ContainsAny(cu+users[cu], ":\x00") {
+					continue
+				}
+				cp := users[cu]
+				for _, j := range []job{{u: cu, p: cp, want: "ok", fe: fe}, {u: cu[:1], p: cu[1:] + cp, want: "denied", fe: fe}, {u: cu[:len(cu)-1], p: cu[len(cu)-1:] + cp, want: "denied", fe: fe}} {
+					if _, exists := users[j.u]; exists && j.want == "denied" && users[j.u] == j.p {
+						continue
+					}
+					wg.Add(1)
+					go func(j job) {
+						defer wg.Done()
+						<-gate
+						var v string
+						switch j.fe {
+						case "sasl":
+							v = agent.saslAuth(j.u, j.p)
+						case "basic":
+							v = agent.basicAuth(j.u, j.p)
+						case "api":
+							v = agent.apiAuth(j.u, j.p, false)
+						case "ldap":
+							v = agent.ldapBind(j.u, j.p)
+						}
+						if v == "denied-over-limit" {
+							v = "denied"
+						}
+						mu.Lock()
+						total++
+						if v != j.want && v != "n/a" {
+							wrong++
+							if first == "" {
+								first = fmt.Sprintf("%s: user %s password %s expected %s got %s (requests with the same user+password concatenation in flight)", j.fe, vr.Q(j.u), vr.Q(j.p), j.want, v)
+							}
+						}
+						mu.Unlock()
+					}(j)
+				}
+			}
+		}
 		close(gate)
 		wg.Wait()
 	}
